@@ -5,7 +5,13 @@ Mirror models of `/repo/src/visit/traversal.rs` (`Dfs`, `DfsPostOrder`, `Bfs`, `
 
 `graph.neighbors(x)` is `v.succ x` (the encoding's iteration order); a visit map is a list of
 visited ids; stacks have their top at the head.  Loops take fuel; `none` for the walker state means
-fuel ran out (the theorems show it does not for the fuel the driver uses).
+fuel ran out.  That CAN happen: `ViewOk` fixes only the set of neighbours a view enumerates, so a view
+that repeats a neighbour often enough exhausts any fuel computed from `|nodes|` and `|edges|`
+(`Theorems/C08.lean`, `C08_total_needs_bound_witness`).  It does not happen with at least
+`walkFuel v = Σ_{u ∈ nodes} (|v.succ u| + 2) + 2` inner and `|nodes| + 1` outer fuel
+(`C08_dfs_total`, `C08_bfs_total`, `C08_postorder_total`, `C08_topo_total`, `C08_dfsv_fuel`), and the
+fuel the driver uses is at least that for every view it accepts (`C08_driver_fuel_suffices`: there the
+neighbour lists are permutations of the abstract graph's).
 -/
 namespace PetgraphModel.Trav
 open PetgraphModel
